@@ -16,6 +16,7 @@ def run(ctx):
     RL.maps_before_function_words(ctx, "R08.f")
     RL.function_word_tables(ctx, "R08.f")
     RR.component_formulas(ctx, "R08.g")
+    RR.trans_gap_penalty(ctx, "R08.g")
     from . import r_word as RW
     RW.get_pos_lookup(ctx, "R08.h")
     RW.word_field_from_lang(ctx, "R08.h", "set_pos", "pos", "Lang::get_pos")
